@@ -687,6 +687,11 @@ impl Runner {
                 self.model.former.insert((format!("vamm_if{}", i), a.insurance_fund.clone()));
             }
         }
+        for (role, a, b) in [("if_owner", &pre.if_owner, &post.if_owner), ("fp_owner", &pre.fp_owner, &post.fp_owner), ("pf_owner", &pre.pf_owner, &post.pf_owner)] {
+            if a != b && !a.is_empty() {
+                self.model.former.insert((role.to_string(), a.clone()));
+            }
+        }
         if let (Some(a), Some(b)) = (&pre.eng, &post.eng) {
             if a.owner != b.owner {
                 self.model.former.insert(("engine_owner".into(), a.owner.clone()));
